@@ -134,6 +134,14 @@ Qed.
 
 (** ---- AddMessageToMailbox ------------------------------------------------------------ *)
 
+Lemma bump_absent s mb : find_id s mb = None -> bump s mb = s.
+Proof.
+  intros F. unfold bump, set_mboxes. destruct s as [mbs lk nm gl gu gs]. cbn [mboxes links next_msg glog gused gser] in *.
+  f_equal. unfold find_id in F. cbn [mboxes] in F. rewrite <- (map_id mbs) at 2. apply map_ext_in. intros m Hm.
+  unfold bump_row. destruct (mb_id m =? mb) eqn:E; [|reflexivity].
+  exfalso. pose proof (find_none _ _ F m Hm) as X. cbv beta in X. congruence.
+Qed.
+
 Lemma add_steps_refines d msg mb fl :
   d_st (run_steps d (add_steps (d_st d) msg mb fl)) = fst (add_message (d_st d) msg mb fl)
   /\ snd (add_message (d_st d) msg mb fl) = add_ok (d_st d) mb
@@ -143,7 +151,7 @@ Proof.
   unfold add_steps, add_message, add_ok. destruct (find_id (d_st d) mb) as [m|] eqn:F.
   - unfold run_steps. cbn [fold_left exec]. unfold insert_link. cbn [d_st with_st bump links set_mboxes].
     destruct (existsb (at_uid mb (mb_next m)) (links (d_st d))); cbn; repeat split; destruct d; reflexivity.
-  - cbn. repeat split. symmetry. apply with_st_id.
+  - unfold run_steps. cbn [fold_left exec fst snd]. rewrite (bump_absent _ _ F). repeat split.
 Qed.
 
 Lemma store_message_next s : next_msg (fst (store_message s)) = next_msg s + 1.
